@@ -191,12 +191,11 @@ template <bool Conc>
 void runList(Case& c, const char* name) {
   unsigned cs   = c.rng.pick({1u, 2u, 2u, 3u, 3u, 4u, 4u, 16u, 64u});
   bool tracked  = c.rng.below(3) != 0;
-  bool useFront = c.rng.below(VERIF_ASAN ? 64 : 16) == 0; // front() is part of the per-step checks (rarer where a failed assert costs a process)
+  bool useFront = c.rng.below(4) != 0; // front() is part of the per-step checks
   unsigned nops = c.pickOps();
   std::string cfg = "cs" + std::to_string(cs) + (tracked ? "|tracked" : "|pod") + (useFront ? "|front" : "");
   if (!c.begin(name, cfg,
-          J().kv("chunk", cs).kv("elem", tracked ? "tracked" : "pod").kv("front_checked", useFront).kv("nops", nops),
-               useFront ? "front" : ""))
+          J().kv("chunk", cs).kv("elem", tracked ? "tracked" : "pod").kv("front_checked", useFront).kv("nops", nops)))
     return;
   if (tracked)
     listCS<Tracked, Conc>(c, cs, useFront, nops);
